@@ -22,17 +22,25 @@ CHUNK = 6
 
 FILES = [c07.fspec("ML", 40, "UPPER", pat="ramp7", load=0x3000, exec_=0x3005), c07.fspec("ML", 300, "lower", pat="m00.p1", load=0x0100, exec_=0x0120),
          c07.fspec("BAS", 25, "BASICPG", "BAS"), c07.fspec("ASC", 600, "TEXT", "TXT", pat="55"), c07.fspec("ML", 2295, "EIGHTCHR", pat="ff"),
-         c07.fspec("ML", 10, "SP", pat="3c"), c07.fspec("MLA", 33, "MLFLAG", pat="ramp", load=0x4000, exec_=0x4001)]
+         c07.fspec("ML", 10, "SP", pat="3c"), c07.fspec("MLA", 33, "MLFLAG", pat="ramp", load=0x4000, exec_=0x4001),
+         # a second file with the name of FILES[0] (the same program saved twice on a tape is legal)
+         c07.fspec("ML", 55, "UPPER", pat="ramp", load=0x3100, exec_=0x3101)]
+DUP = 7
 
 
 def source_sets(tier):
     for n in (0, 1, 2, 3):
-        for tup in itertools.combinations(range(len(FILES)), n):
+        for tup in itertools.combinations(range(DUP), n):
             if n == 3 and tier != "thorough" and tup not in ((0, 1, 2), (1, 3, 4), (0, 2, 5), (3, 4, 5)):
                 continue
             yield list(tup)
     yield [1, 0]
     yield [4, 2, 0]
+    # sources on which one name occurs twice
+    yield [0, DUP]
+    yield [0, DUP, 1]
+    yield [0, 1, DUP]
+    yield [1, DUP, 0]
 
 
 def spellings(name, mode):
@@ -49,7 +57,7 @@ def cases(tier, seed):
             for tkind in ("cas", "dsk"):
                 yield {"k": "conv", "skind": skind, "files": fset, "tkind": tkind, "sel": None, "mode": None, "absent": False}
                 for r in range(1, len(fset) + 1):
-                    for sel in itertools.combinations(fset, r):
+                    for sel in itertools.combinations([i for i in fset if i != DUP], r):
                         for mode in ("upper", "lower", "mixed"):
                             yield {"k": "conv", "skind": skind, "files": fset, "tkind": tkind, "sel": list(sel), "mode": mode, "absent": False}
                 if fset:
@@ -142,7 +150,8 @@ def check_case(case):
             want = specs
             if case["sel"] is not None:
                 files_arg = [spellings(FILES[i]["name"], case["mode"]) for i in case["sel"]] + (["NOSUCH"] if case["absent"] else [])
-                want = [s for s in specs if any(s is FILES[i] for i in case["sel"])]
+                chosen = {FILES[i]["name"].upper() for i in case["sel"]}
+                want = [s for s in specs if s["name"].upper() in chosen]
             status, out = cli.file_util(src, **{"to_" + case["tkind"]: tgt, "files": files_arg})
             if isinstance(status, str) or status != 0:
                 bad("conversion failed: {}".format(str(status).split()[0]), "exit 0", "{} {}".format(status, out[-120:]))
@@ -200,7 +209,7 @@ def check_case(case):
 def describe(tier):
     return {
         "alphabet": "source images written by the independent writers (cassette and disk) holding every subset of size <= 2 (" +
-                    ("and every subset of size 3" if tier == "thorough" else "4 subsets of size 3") + ") of {} plus two reordered sets; target kind cas/dsk; "
+                    ("and every subset of size 3" if tier == "thorough" else "4 subsets of size 3") + ") of {} plus two reordered sets and four sets on which one name occurs twice; target kind cas/dsk; "
                     "disk sources on descending and track-17-crossing chains; cassette sources recorded with gaps (gap flag $FF); "
                     "--files = every non-empty subset of the names in upper/lower/mixed case, with an absent name, and only an absent name; chains "
                     "cas>dsk>cas and dsk>cas>dsk; --to_bin on 1- and 2-file sources".format([C.brief(f) for f in FILES]),
